@@ -322,6 +322,9 @@ func (p *Proxy) handleConnectRequest(ctx *Context, req *http.Request, session *S
 	if p.mitm != nil {
 		log.Debugf("martian: attempting MITM for connection: %s / %s", req.Host, req.URL.String())
 
+		// Requests inside the tunnel that name no host are meant for its authority.
+		session.setTunnelAuthority(req.Host)
+
 		res := proxyutil.NewResponse(200, nil, req)
 
 		if err := p.resmod.ModifyResponse(res); err != nil {
@@ -501,6 +504,11 @@ func (p *Proxy) handle(ctx *Context, conn net.Conn, brw *bufio.ReadWriter) error
 	req.RemoteAddr = conn.RemoteAddr().String()
 	if req.URL.Host == "" {
 		req.URL.Host = req.Host
+	}
+	if req.URL.Host == "" {
+		// Neither the target nor a Host header names a host: inside a MITM'd
+		// CONNECT tunnel the request is for the tunnel's authority.
+		req.URL.Host = session.tunnelAuthority()
 	}
 
 	if req.Method == "CONNECT" {
